@@ -133,6 +133,27 @@ Theorem C05_set_userdata_releases_old : forall s i u d n,
 Proof. exact set_userdata_releases_old. Qed.
 Print Assumptions C05_set_userdata_releases_old.
 
+(* which library calls may end a registration: only set_userdata / set_serializer (above) and the
+   destruction of the node — never a value setter (json_object_set_boolean / set_int / set_int64 /
+   set_uint64 / int_inc / set_double / set_string / set_string_len), whatever serializer function,
+   userdata and callback the caller registered.  The one registration such a call releases is the
+   library's own retained-text pair of json_object_new_double_s (number lib_reg = -1), by
+   json_object_set_double; every node not carrying that one is left exactly as it was. *)
+Theorem C05_value_setter_keeps_registrations : forall s i w s' ret evs,
+  step s (OSetVal i w) = ROk s' ret evs ->
+  (forall j t, In (j, t) (rels evs) -> j = i /\ t = lib_reg /\ w = SDouble) /\
+  (forall j n, hfind (heap_of s) j = Some n -> cb n <> Some lib_reg -> hfind (heap_of s') j = Some n) /\
+  (ret = 0 \/ ret = 1).
+Proof. exact value_setter_keeps_registrations. Qed.
+Print Assumptions C05_value_setter_keeps_registrations.
+
+Theorem C05_nonvacuous_set_double :
+  exists s1 s2, step init_state ONewDoubleS = ROk s1 1 [] /\
+    step s1 (OSetVal 1 SDouble) = ROk s2 1 [EUser 1 lib_reg] /\
+    option_map cb (hfind (heap_of s2) 1) = Some None /\
+    step s2 (OSetVal 1 SDouble) = ROk s2 1 [] /\ step s2 (OSetVal 1 SInt) = ROk s2 0 [].
+Proof. exact ex_set_double_drops_text. Qed.
+
 Theorem C05_nonvacuous_registrations :
   adm_hist init_state L0 ex_reg_ops /\
   exists s' L' tr, run init_state L0 ex_reg_ops = Some (s', L', tr) /\
